@@ -15,6 +15,7 @@
  */
 #pragma once
 
+#include <unifex/detail/verif_hooks.hpp>
 #include <unifex/get_stop_token.hpp>
 #include <unifex/manual_lifetime_union.hpp>
 #include <unifex/receiver_concepts.hpp>
@@ -87,10 +88,12 @@ struct _op {
       // above), the receiver may have already destroyed *this. The
       // stack-local sync_complete flag lets us detect this without
       // touching any member.
+      UNIFEX_VERIF_POINT(341);
       if (sync_complete.load(std::memory_order_acquire)) {
         return;
       }
 
+      UNIFEX_VERIF_POINT(342);
       if (auto state =
               this->state_.fetch_or(started, std::memory_order_acq_rel);
           state == stopped) {
@@ -121,6 +124,7 @@ struct _op {
 
   struct stop_callback {
     void operator()() noexcept {
+      UNIFEX_VERIF_POINT(343);
       if (auto state = op_->state_.fetch_or(stopped, std::memory_order_acq_rel);
           state == started /* neither stopped nor completed are set! */) {
         op_->nested_op().stop();
@@ -143,9 +147,11 @@ bool try_complete(NestedOp* self) noexcept {
   auto* non_stop =
       std::launder(reinterpret_cast<typename op::non_stop_type*>(self));
 
+  UNIFEX_VERIF_POINT(344);
   auto state =
       non_stop->state_.fetch_or(op::completed, std::memory_order_acq_rel);
 
+  UNIFEX_VERIF_POINT(345);
   if ((state & op::completed) != 0) {
     return false;
   }
